@@ -72,8 +72,11 @@ def gen_case(rng, size):
             ops.append(rng.choice(['len', 'keys', 'values', 'items']))
         elif r < 0.945:
             ops.append('saveload %d' % rng.choice([0, 4, rng.randrange(2 ** 48), 2 ** 63]))
-        elif r < 0.95:
+        elif r < 0.948:
             ops.append('pickle')        # the other save/load path: __getstate__ / __setstate__
+        elif r < 0.95:
+            # fsIndex(source) from a dict / another fsIndex / legacy (version-0) pickled state
+            ops.append('rebuild %s' % rng.choice(['dict', 'fs', 'legacy', 'legacystr']))
         elif r < 0.96:
             ops.append('clear')
             present.clear()
@@ -92,7 +95,8 @@ def gen_case(rng, size):
         else:
             if present:
                 ops.append('bucketstr %s' % hex8(rng.choice(sorted(present))))
-    ops += ['items', 'len', 'keys', 'values', 'minkey', 'maxkey', 'iternext none', 'saveload 12345', 'items']
+    ops += ['items', 'len', 'keys', 'values', 'minkey', 'maxkey', 'iternext none', 'saveload 12345', 'items',
+            'rebuild %s' % rng.choice(['dict', 'fs', 'legacy', 'legacystr']), 'len']
     return ops
 
 
@@ -138,6 +142,10 @@ def run_real(ops, tmpdir):
                     v2 = None
                 if v2 != v:
                     r += ' getitem-differs:%r' % (v2,)
+                for dflt in (0, -1, 'absent', b''):       # get(key, default): the default only when absent
+                    vd = ix.get(k, dflt)
+                    if vd != (dflt if v is None else v):
+                        r += ' get-default-differs:%r:%r' % (dflt, vd)
             elif t[0] == 'contains':
                 k = p64(int(t[1], 16))
                 a, b = k in ix, ix.has_key(k)
@@ -192,6 +200,30 @@ def run_real(ops, tmpdir):
                 d = fsIndex.load(fn)
                 ix = d['index']
                 r = 'pos=%d [%s]' % (d['pos'], ','.join('%s:%d' % (k.hex(), v) for k, v in ix.items()))
+            elif t[0] == 'rebuild':
+                old = ix
+                if t[1] == 'dict':
+                    ix = fsIndex(dict(old.items()))
+                elif t[1] == 'fs':
+                    ix = fsIndex(old)
+                else:
+                    # version-0 state (no state_version): {'_data': OOBTree prefix -> fsBucket}; a Python 2
+                    # pickle read on Python 3 hands all-ASCII prefixes over as str
+                    from BTrees.OOBTree import OOBTree
+                    from BTrees.fsBTree import fsBucket
+                    st = OOBTree()
+                    # (one tree cannot hold str and bytes keys: str only when every prefix is ASCII)
+                    as_str = t[1] == 'legacystr' and all(c < 0x80 for pk in old._data.keys() for c in pk)
+                    for pk, b in old._data.items():
+                        st[pk.decode('ascii') if as_str else pk] = fsBucket().fromString(b.toString())
+                    ix = fsIndex.__new__(fsIndex)
+                    ix.__setstate__({'_data': st})
+                # the new index shares nothing with its source: disturb and drop the source
+                for k0 in list(old.keys())[:3]:
+                    old[k0] = 12345
+                    old[k0[:6] + b'\xff\xfc'] = 1
+                old.clear()
+                r = '[' + ','.join('%s:%d' % (k.hex(), v) for k, v in ix.items()) + ']'
             elif t[0] == 'pickle':
                 import pickle
                 proto = 2 + len(out) % 3
@@ -274,6 +306,8 @@ def run_oracle(ops):
             r = 'pos=%d [%s]' % (int(t[1]), ','.join('%s:%d' % (hex8(k), d[k]) for k in ks))
         elif t[0] == 'pickle':
             r = 'pos=0 [%s]' % ','.join('%s:%d' % (hex8(k), d[k]) for k in ks)
+        elif t[0] == 'rebuild':
+            r = '[' + ','.join('%s:%d' % (hex8(k), d[k]) for k in ks) + ']'
         elif t[0] == 'bucketstr':
             r = None        # internal observable: the oracle has no opinion
         else:
@@ -369,7 +403,8 @@ def main(argv=None):
     # model: one driver run for all cases ("clear" between cases is part of the protocol)
     allops = []
     for ops in cases:
-        allops += ['clear'] + ['saveload 0' if op == 'pickle' else op for op in ops]
+        allops += ['clear'] + ['saveload 0' if op == 'pickle' else 'items' if op.startswith('rebuild') else op
+                               for op in ops]
     model_out = run_driver('FsIndex', allops)
     pos = 0
     for ops in cases:
